@@ -253,47 +253,120 @@ def check_find(ctx):
            'picked up' % (bad.cond_text()[-300:] if bad else 'none'))
 
 
+def _ancestors(pm, node):
+    n = pm.get(node)
+    while n is not None:
+        yield n
+        n = pm.get(n)
+
+
 def check_dirs(ctx):
     prog = ctx.prog
     t = load_table(ctx)
     r = t.roles
+    bodies = list(r.bodies)
     lr = r.load_body
-    W = lambda n: ctx.where(lr.module, n)
-    # loop over the option accumulating existing dirs; loop over them calling
-    # the walker
-    opt_loops = [n for n in walk_no_nested(lr.node) if isinstance(n, ast.For)
-                 and U(n.iter).endswith('.oslo_policy.policy_dirs')]
-    walker_calls = [n for n in walk_no_nested(lr.node)
+    W = lambda n, f=None: ctx.where((f or lr).module, n)
+    # loop over the option accumulating existing dirs (function A); loop over
+    # them calling the walker (function B, possibly the same)
+    opt = None
+    for b in bodies:
+        for n in walk_no_nested(b.node):
+            if isinstance(n, ast.For) and U(n.iter).endswith(
+                    '.oslo_policy.policy_dirs'):
+                opt = (b, n)
+    walker_calls = [(b, n) for b in bodies for n in walk_no_nested(b.node)
                     if isinstance(n, ast.Call)
-                    and prog.callee_of(lr, n) is r.walker]
+                    and prog.callee_of(b, n) is r.walker]
     ctx.floor('C09.DIR-ORDER', len(walker_calls), 1, 'walker calls')
-    if not opt_loops:
-        any_loop = [n for n in walk_no_nested(lr.node) if isinstance(
-            n, ast.For) and 'policy_dirs' in U(n.iter)]
-        ctx.ob('C09.DIR-ORDER', False, W(any_loop[0] if any_loop
-                                         else lr.node), lr.qual,
+    if opt is None:
+        any_loop = [(b, n) for b in bodies for n in walk_no_nested(b.node)
+                    if isinstance(n, ast.For) and 'policy_dirs' in U(n.iter)]
+        ctx.ob('C09.DIR-ORDER', False,
+               W(any_loop[0][1], any_loop[0][0]) if any_loop
+               else W(lr.node), lr.qual,
                'iteration over policy_dirs: ' + (
-                   U(any_loop[0].iter) if any_loop else 'none'),
+                   U(any_loop[0][1].iter) if any_loop else 'none'),
                'the configured policy directories are not visited in '
                'configured order')
         return
-    ol = opt_loops[0]
-    accs = [method_call(c)[0] for c in ast.walk(ol) if isinstance(
-        c, ast.Call) and method_call(c, 'append')]
-    acc_names = {U(a) for a in accs}
-    pm = parent_map(lr.node)
-    for wc in walker_calls:
+    fa, ol = opt
+    pma = parent_map(fa.node)
+    appends = [c for c in ast.walk(ol) if isinstance(c, ast.Call)
+               and method_call(c, 'append')]
+    acc_names = {U(method_call(c)[0]) for c in appends}
+    returns_acc = any(isinstance(x, ast.Return) and x.value is not None
+                      and U(x.value) in acc_names
+                      for x in walk_no_nested(fa.node))
+    # (i) a missing directory only skips itself: the handler of the lookup
+    # sits inside the loop
+    for c in ast.walk(ol):
+        if isinstance(c, ast.Call) and prog.callee_of(fa, c) is r.get_path:
+            cur, anc, inside = c, pma.get(c), False
+            while anc is not None and anc is not ol:
+                if isinstance(anc, ast.Try) and any(cur is b
+                                                    for b in anc.body):
+                    inside = True
+                cur, anc = anc, pma.get(anc)
+            ctx.ob('C09.SKIP', inside, W(c, fa), fa.qual,
+                   'per-directory lookup ' + U(c)[:60],
+                   'a configured directory that does not exist is skipped '
+                   'on its own' if inside else
+                   'the lookup of one policy directory is not guarded inside '
+                   'the loop: a missing directory drops every directory '
+                   'configured after it (or makes the load fail)')
+    # (ii) every located directory is kept, in order: the append is not
+    # under a condition and no `continue` outside a handler precedes it
+    for c in appends:
+        cur, anc, cond = c, pma.get(c), None
+        while anc is not None and anc is not ol:
+            if isinstance(anc, (ast.If, ast.IfExp, ast.While)):
+                cond = anc
+            cur, anc = anc, pma.get(anc)
+        skips = [x for x in ast.walk(ol) if isinstance(x, (ast.Continue,
+                                                           ast.Break))
+                 and x.lineno < c.lineno and not any(
+                     isinstance(a, ast.ExceptHandler)
+                     for a in _ancestors(pma, x))]
+        ok = cond is None and not skips
+        ctx.ob('C09.DIR-ORDER', ok, W(c, fa), fa.qual, U(c)[:80],
+               'every configured directory that exists is kept, in '
+               'configured order' if ok else
+               'a configured directory that exists can be left out (the '
+               'collection step is conditional: %s): a directory configured '
+               'twice or matching the condition loses its place in the '
+               'order' % (U(cond.test)[:60] if cond is not None
+                          else 'continue/break at line %d' % skips[0].lineno))
+    for fb, wc in walker_calls:
+        pmb = parent_map(fb.node)
         loop = None
-        n = pm.get(wc)
+        n = pmb.get(wc)
         while n is not None:
             if isinstance(n, ast.For):
                 loop = n
                 break
-            n = pm.get(n)
-        ok = loop is not None and (U(loop.iter) in acc_names or loop is ol)
+            n = pmb.get(n)
+        ok = False
+        if loop is not None:
+            it = U(loop.iter)
+            if loop is ol:
+                ok = True
+            elif fb is fa and it in acc_names:
+                ok = True
+            elif returns_acc:
+                # iterates the list returned by the collecting helper
+                for a in walk_no_nested(fb.node):
+                    if isinstance(a, ast.Assign) and U(
+                            a.targets[0]) == it and isinstance(
+                                a.value, ast.Call) and prog.callee_of(
+                                    fb, a.value) is fa:
+                        ok = True
+                if isinstance(loop.iter, ast.Call) and prog.callee_of(
+                        fb, loop.iter) is fa:
+                    ok = True
         first = wc.args[0] if wc.args else None
         ok = ok and first is not None and U(first) == U(loop.target)
-        ctx.ob('C09.DIR-ORDER', bool(ok), W(wc), lr.qual, U(wc)[:100],
+        ctx.ob('C09.DIR-ORDER', bool(ok), W(wc, fb), fb.qual, U(wc)[:100],
                'directories are applied in the order of option policy_dirs'
                if ok else 'directories are not applied in configured order '
                '(iterating %s)' % (U(loop.iter) if loop else '?'))
@@ -303,7 +376,7 @@ def check_dirs(ctx):
         bound = dict(zip(lp[1:], extra))
         ov = bound.get('overwrite')
         okm = ov is not None and is_const(ov, False)
-        ctx.ob('C09.MODES', okm, W(wc), lr.qual,
+        ctx.ob('C09.MODES', okm, W(wc, fb), fb.qual,
                'directory load overwrite=' + (U(ov) if ov is not None
                                               else 'default'),
                'files of a policy directory update the rule set in place '
@@ -311,8 +384,9 @@ def check_dirs(ctx):
                if okm else 'policy-directory files are loaded with '
                'overwrite on: each file would wipe what was loaded before')
     # main file uses self.overwrite
-    mains = [n for n in walk_no_nested(lr.node) if isinstance(n, ast.Call)
-             and prog.callee_of(lr, n) is r.loader]
+    mains = [n for b in bodies for n in walk_no_nested(b.node)
+             if isinstance(n, ast.Call)
+             and prog.callee_of(b, n) is r.loader]
     for mc in mains:
         ov = kwarg(mc, 'overwrite', 2)
         ok = ov is not None and U(ov) == 'self.overwrite'
@@ -461,44 +535,33 @@ def check_walker(ctx):
 def check_skip(ctx):
     prog = ctx.prog
     r = roles(ctx)
-    lr = r.load_body
     n = 0
-    for tnode in walk_no_nested(lr.node):
-        if not isinstance(tnode, ast.Try):
-            continue
-        calls_get = any(isinstance(c, ast.Call) and prog.callee_of(
-            lr, c) is r.get_path for b in tnode.body for c in ast.walk(b))
-        if not calls_get:
-            continue
-        n += 1
-        caught = [x for h in tnode.handlers
-                  for x in handler_names(prog, lr.module, h)]
-        ok = any(x.endswith('ConfigFilesNotFoundError') or x in (
-            'builtin:Exception',) for x in caught) and not any(
-                isinstance(x, ast.Raise) for h in tnode.handlers
-                for x in ast.walk(h))
-        ctx.ob('C09.SKIP', ok, ctx.where(lr.module, tnode), lr.qual,
-               'lookup of %s' % U(tnode.body[0])[:70],
-               'a missing policy file / directory is skipped' if ok else
-               'a missing policy file or directory makes load_rules raise')
-    unguarded = []
-    pm = parent_map(lr.node)
-    for c in walk_no_nested(lr.node):
-        if isinstance(c, ast.Call) and prog.callee_of(lr, c) is r.get_path:
-            cur, inside = c, False
-            while cur in pm:
-                par = pm[cur]
-                if isinstance(par, ast.Try) and any(cur is b
-                                                    for b in par.body):
-                    inside = True
-                cur = par
-            if not inside:
-                unguarded.append(c)
-    for c in unguarded:
-        ctx.ob('C09.SKIP', False, ctx.where(lr.module, c), lr.qual, U(c),
-               'a path lookup is not guarded: a missing policy file or '
-               'directory makes load_rules raise')
-    ctx.floor('C09.SKIP', n, 2, 'guarded path lookups')
+    for lr in r.bodies:
+        pm = parent_map(lr.node)
+        for c in walk_no_nested(lr.node):
+            if not (isinstance(c, ast.Call)
+                    and prog.callee_of(lr, c) is r.get_path):
+                continue
+            n += 1
+            cur, anc, caught, reraises = c, pm.get(c), [], False
+            while anc is not None:
+                if isinstance(anc, ast.Try) and any(cur is b
+                                                    for b in anc.body):
+                    for h in anc.handlers:
+                        caught += handler_names(prog, lr.module, h)
+                        if any(isinstance(x, ast.Raise)
+                               for x in ast.walk(h)):
+                            reraises = True
+                cur, anc = anc, pm.get(anc)
+            ok = any(x.endswith('ConfigFilesNotFoundError') or x in (
+                'builtin:Exception',) for x in caught) and not reraises
+            ctx.ob('C09.SKIP', ok, ctx.where(lr.module, c), lr.qual,
+                   'lookup ' + U(c)[:70],
+                   'a missing policy file / directory is skipped' if ok else
+                   'a missing policy file or directory makes load_rules '
+                   'raise (the lookup is not guarded against '
+                   'ConfigFilesNotFoundError, or the handler re-raises)')
+    ctx.floor('C09.SKIP', n, 2, 'path lookups')
 
 
 def check_opts(ctx):
